@@ -644,6 +644,7 @@ func optimizeLine(line string) string {
 		never = neverIndices(analyzed).String()
 	}
 	var optimized map[string]aast.AnalyzedProgram
+	odiags := ""
 	st := guarded(func() string {
 		opt := optimizer.NewOptimizer()
 		out, diags := opt.Optimize(analyzed)
@@ -657,9 +658,17 @@ func optimizeLine(line string) string {
 				nwarn++
 			}
 		}
+		// every diagnostic of the optimizer with its level, span, file and message (C08)
+		items := make([]string, 0, len(diags))
+		for _, d := range diags {
+			items = append(items, fmt.Sprintf("%d@%d.%d-%d.%d@%s@%s", d.Level, d.Span.Start.Line, d.Span.Start.Column, d.Span.End.Line, d.Span.End.Column,
+				hexs(d.Span.Filename), hexs(d.Message)))
+		}
+		odiags = strings.Join(items, ";")
 		return fmt.Sprintf("%d,%d", nerr, nwarn)
 	})
 	add("DIAG", st)
+	add("ODIAGS", odiags)
 	if optimized == nil {
 		return strings.Join(parts, " | ")
 	}
